@@ -9,7 +9,6 @@ Proof.
   destruct k; simpl; [reflexivity|]. apply IH; lia.
 Qed.
 
-Definition is_shield (f : frame) : bool := match f with FShield _ _ _ _ => true | _ => false end.
 Definition no_shield (k : list frame) : Prop := forall f, In f k -> is_shield f = false.
 
 (* without a shield driver on the coroutine stack a resumption reaches the innermost await unchanged *)
@@ -100,9 +99,11 @@ Lemma shield_swallows_then_redelivers : forall st id last m outer,
     ready st' = ready st ++ [mkH (nexth st) (HDelayedCancel m) false; mkH (S (nexth st)) HDelayedPop false].
 Proof.
   intros st id last m outer Hd. unfold shield_resume. cbn [cancel_msg_of].
-  unfold reschedule_delayed. rewrite Hd. cbn.
-  eexists. split; [reflexivity|]. split; [reflexivity|].
-  rewrite <- app_assoc. reflexivity.
+  unfold reschedule_delayed.
+  destruct m as [j|].
+  - rewrite Hd. cbn. eexists. split; [reflexivity|]. split; [reflexivity|]. rewrite <- app_assoc. reflexivity.
+  - change (delayed (set_g_owed st true)) with (delayed st). rewrite Hd. cbn.
+    eexists. split; [reflexivity|]. split; [reflexivity|]. rewrite <- app_assoc. reflexivity.
 Qed.
 
 (* ... and when that handle runs the task is cancelled again with the same message, cancelling() unchanged overall
